@@ -168,6 +168,17 @@ def strat_copula(draw, tier):
     from props.c01 import strat_copula as base
 
     case = draw(base(tier))
+    # a third of the cases mix variation types: one margin of infinite variation next to finite-variation ones (each
+    # margin's compensator cut-off is its own; a model-wide flag gives the finite-variation margin a wrong mean)
+    if len(case["margins"]) == 2 and draw(st.integers(0, 2)) == 0:  # (d=2: the constructor cost grows with d)
+        from vlib.grids import chain_model_spec
+
+        i = draw(st.integers(0, len(case["margins"]) - 1))
+        for j, m in enumerate(case["margins"]):
+            new = draw(chain_model_spec(families=("cgmy",), exp=False, cgmy_branches=["y=1", "1<y<2"])) if j == i else \
+                (m if activity(m)[1] else draw(chain_model_spec(exp=False, cgmy_branches=["y<0", "y=0", "0<y<1"])))
+            new["exp"] = m["exp"]
+            case["margins"][j] = new
     case["reps"] = [draw(st.sampled_from(REPS)) for _ in case["margins"]]
     return case
 
@@ -231,6 +242,9 @@ def classify_copula(case):
     d = len(case["margins"])
     labels = [f"d={d}", case["copula"]["type"], case["grid"]["type"]] + \
              sorted({branch_of(m) for m in case["margins"]}) + sorted({f"rep={r}" for r in case["reps"]})
+    fv = {activity(m)[1] for m in case["margins"]}
+    if len(fv) == 2:
+        labels.append("mixed-variation-types")
     return labels, True
 
 
@@ -246,6 +260,6 @@ SUBCHECKS = [
              rule="copula chains d=2,3 (as in C01) x declared representation per margin: every margin's mean "
                   "per unit time (drift + sum over all states of x_k * rate) vs its truncated margin mean, with "
                   "the box-truncation leak of the other coordinates added to the tolerance",
-             strategy=strat_copula, budget={"quick": 48, "thorough": 480},
-             shards={"quick": 16, "thorough": 16}),
+             strategy=strat_copula, budget={"quick": 64, "thorough": 640},
+             shards={"quick": 16, "thorough": 16}, essential_labels=("mixed-variation-types",)),
 ]
